@@ -190,7 +190,8 @@ func (g *genCtx) exitChain() Node {
 		if g.r.Pct(30) {
 			name = fmt.Sprintf("Chn%dX", top)
 		}
-		bottom = Node{K: "ret", Name: name}
+		g.nextID++
+		bottom = Node{K: "ret", ID: g.nextID, Name: name}
 	}
 	kinds := []string{"let", "when", "unless", "cond", "seq", "uwp", "lock", "file", "ignore", "recover", "dolist", "dotimes", "do", "prog", "lambda", "send", "block", "tagbody"}
 	cur := bottom
@@ -401,6 +402,12 @@ func (n *Node) render(dir string, b *strings.Builder) {
 		b.WriteString("(sim-emit \"leaf\" \"val\")")
 	case "ret":
 		val, form := "7", " 7"
+		if n.ID > 0 {
+			// every leaf gives a value of its own, so that the value a block
+			// yields is attributable to one leaf
+			val = fmt.Sprint(1000 + n.ID)
+			form = " " + val
+		}
 		if n.NilVal {
 			val, form = "nil", []string{"", " nil", " '()"}[n.ID%3]
 		}
@@ -583,6 +590,13 @@ func calibrate() {
 		errClass[k] = r.Cond
 		errMsg[k] = r.Msg
 	}
+	{
+		sc := slip.NewScope()
+		sc.InterruptCheck = func() { panic(&slip.Panic{Message: "Keyboard interrupt"}) }
+		r := lispsim.Eval(lispsim.Read("(+ 1 2)"), sc)
+		errClass["interrupt"] = r.Cond
+	}
+	errClass["cleanup"] = errClass["simple"]
 	// warm lazily initialised interpreter state
 	lispsim.Eval(lispsim.Read(`(let ((m (make-mutex))) (block b (tagbody (unwind-protect (with-mutex-lock m (ignore-errors (error "x"))) 1) (go e) e) (dolist (x '(1)) (dotimes (i 1) (cond (t (when t (funcall (lambda (a) a) 1)))))) (return-from b 1)))`), slip.NewScope())
 }
@@ -973,6 +987,7 @@ func (e *engine) Execute(raw json.RawMessage) (vd harness.Verdict) {
 	vd.Faults = map[string]int{}
 	vd.Probes = map[string]int{}
 	var dryMarkers map[int]bool
+	rc := newRefCtx(&c)
 	one := func(f *Fault) *harness.Violation {
 		out := e.run(&c, f)
 		vd.Evals++
@@ -992,6 +1007,9 @@ func (e *engine) Execute(raw json.RawMessage) (vd harness.Verdict) {
 			vd.Probes["unhandled_condition_at_top"]++
 		}
 		v := c.judge(out, f)
+		if v == nil {
+			v = rc.judge(out, f, vd.Probes)
+		}
 		if v != nil {
 			p := c
 			p.Fault = f
@@ -1329,4 +1347,129 @@ func sanitize(n *Node, visible []string, unsafe map[string]bool, kinds map[strin
 		}
 		sanitize(&n.Kids[i], vis, us, kinds)
 	}
+}
+
+// ---- the reference evaluator as an oracle ----
+
+type refCtx struct {
+	c     *Case
+	forms []sx
+	bad   string
+	dry   *refResult
+	// intr holds what the reference evaluator predicts for an interrupt
+	// before each of its steps: trace and result, as one string
+	intr map[string]bool
+}
+
+func newRefCtx(c *Case) *refCtx {
+	var b strings.Builder
+	c.Prog.render("/ref", &b)
+	forms, err := refRead(b.String())
+	rc := &refCtx{c: c, forms: forms}
+	if err != nil {
+		rc.bad = err.Error()
+	}
+	return rc
+}
+
+func refKey(marks []string, res string) string { return strings.Join(marks, "; ") + " => " + res }
+
+func (rr *refResult) result() string {
+	if rr.err != "" {
+		return "condition " + errClass[rr.err]
+	}
+	return "value " + rr.value
+}
+
+func realResult(out *runOut) string {
+	if out.mainRes.Cond != "" {
+		return "condition " + out.mainRes.Cond
+	}
+	if vs, ok := out.mainRes.Raw.(slip.Values); ok {
+		// (ignore-errors ...) yields two values after an error; the value of
+		// the program is the primary one
+		if len(vs) == 0 {
+			return "value nil"
+		}
+		return "value " + normMark(slip.ObjectString(vs[0]))
+	}
+	return "value " + normMark(out.mainRes.Value)
+}
+
+func realMarks(out *runOut) []string {
+	var ms []string
+	for _, m := range out.marks {
+		if m.task == 0 {
+			ms = append(ms, normMark(m.text))
+		}
+	}
+	return ms
+}
+
+// judge compares a fault-free run marker by marker, and its result, with the
+// reference evaluator; a run with an interrupt must equal the reference run
+// with the interrupt before one of its steps.
+func (rc *refCtx) judge(out runOut, f *Fault, probes map[string]int) *harness.Violation {
+	if rc.bad != "" {
+		probes["ref_unsupported"]++
+		return nil
+	}
+	if f != nil && f.Kind != "interrupt" {
+		return nil
+	}
+	if rc.dry == nil {
+		d := refRun(rc.forms, rc.c.Mutexes, 0)
+		rc.dry = &d
+	}
+	if rc.dry.unsup != "" {
+		probes["ref_unsupported"]++
+		return nil
+	}
+	got := realMarks(&out)
+	if f == nil {
+		probes["ref_compared"]++
+		want := rc.dry.marks
+		for i := 0; i < len(got) || i < len(want); i++ {
+			g, w := "<end of trace>", "<end of trace>"
+			if i < len(got) {
+				g = got[i]
+			}
+			if i < len(want) {
+				w = want[i]
+			}
+			if g != w {
+				return viol("ref-trace", "fault-free run: marker %d is %q where the reference evaluator has %q; trace: %s; reference: %s", i, g, w,
+					strings.Join(got, "; "), strings.Join(want, "; "))
+			}
+		}
+		if g, w := realResult(&out), rc.dry.result(); g != w {
+			return viol("ref-result", "fault-free run: the program ended with %s (%s), the reference evaluator with %s; trace: %s", g, out.mainRes.Msg, w, strings.Join(got, "; "))
+		}
+		return nil
+	}
+	if !out.fired {
+		return nil
+	}
+	if rc.intr == nil {
+		rc.intr = map[string]bool{}
+		for q := 1; q <= rc.dry.steps; q++ {
+			r := refRun(rc.forms, rc.c.Mutexes, q)
+			if r.unsup != "" {
+				rc.intr = nil
+				rc.dry.unsup = r.unsup
+				probes["ref_unsupported"]++
+				return nil
+			}
+			rc.intr[refKey(r.marks, r.result())] = true
+		}
+		// an interrupt before the program proper (while the mutexes are made
+		// and the observers started) ends it at once
+		rc.intr[refKey([]string{"interrupt"}, "condition "+errClass["interrupt"])] = true
+	}
+	probes["ref_interrupt_compared"]++
+	if key := refKey(got, realResult(&out)); !rc.intr[key] {
+		return viol("ref-interrupt", "run with interrupt at %d: trace and result equal no run of the reference evaluator with the interrupt before one of its %d steps: %s (%s)",
+			f.At, rc.dry.steps, key, out.mainRes.Msg)
+	}
+	return nil
 }
